@@ -329,10 +329,8 @@ class LabelBase(INET):
         return INET.__eq__(self, other)
 
     def __hash__(self) -> int:
-        # _packed includes everything; use _has_addpath as discriminator
-        if self._has_addpath:
-            return hash(self._packed)
-        return hash(b'disabled' + self._packed)
+        # hash what __eq__ compares: the index leaves the labels out, so the hash must too
+        return hash(self.index())
 
     def __copy__(self) -> Self:
         new = self.__class__.__new__(self.__class__)
